@@ -957,6 +957,12 @@ def _load_data(rec, context):
                 cid = PixelComponentID(comp.axis, cid.label, parent=cid.parent)
                 comps[icomp] = (cid, comp)
 
+        if isinstance(comp, DerivedComponent) and comp.link.get_to_id() is not cid:
+            # Some links (e.g. arithmetic expressions) do not store the
+            # identifier they define, and would otherwise define an anonymous
+            # one, so that other datasets could no longer reach this attribute
+            comp.link.set_to_id(cid)
+
         result.add_component(comp, cid)
 
     assert result._world_component_ids == []
@@ -1403,6 +1409,12 @@ def _load_regiondata(rec, context):
             if not comp.world and not isinstance(cid, PixelComponentID):
                 cid = PixelComponentID(comp.axis, cid.label, parent=cid.parent)
                 comps[icomp] = (cid, comp)
+
+        if isinstance(comp, DerivedComponent) and comp.link.get_to_id() is not cid:
+            # Some links (e.g. arithmetic expressions) do not store the
+            # identifier they define, and would otherwise define an anonymous
+            # one, so that other datasets could no longer reach this attribute
+            comp.link.set_to_id(cid)
 
         result.add_component(comp, cid)
 
